@@ -561,3 +561,31 @@ def delete_style_flow(ck, F):
               "delete_column_style keeps the target column's descriptor only when %s is set: a hidden column without a custom width loses its "
               "descriptor, i.e. it is unhidden by deleting its style" % sorted(flds), fl, ln)
     ck.ob(R, "delete_column_style|col-insert", guarded, "re-insertion of the target column's descriptor not found (anchor lost?)", b.file, b.line)
+
+
+def intern_exact(ck, F, rule="COVER-style"):
+    """Style interning compares by exact equality: the lookups that decide "this font / fill / border / number format /
+    style is already in the table" (Styles::get_font_index, get_fill_index, get_border_index, get_num_fmt_index,
+    get_style_index) only use PartialEq::eq / ne on the stored value.  Any looser comparison (case-insensitive,
+    prefix, normalised) makes two different styles share one table entry: one of them reads back as the other."""
+    STYLES = "ironcalc_base::types::Styles"
+    n = 0
+    for name in ("get_font_index", "get_fill_index", "get_border_index", "get_num_fmt_index", "get_style_index"):
+        b = ck.need(F.one, "Styles::" + name)
+        cmps = []
+        for bi, t in b.calls():
+            q = b.callee_q(t) or ""
+            last = q.rsplit("::", 1)[-1]
+            if place_proj(t["dest"]) or b.locals[t["dest"]["l"]] != "bool":
+                continue
+            # only comparisons that feed a branch
+            cmps.append((bi, q, last))
+        # bin Eq on scalars is exact by construction
+        loose = [(bi, q) for bi, q, last in cmps if last not in ("eq", "ne", "is_none", "is_some", "is_empty") or
+                 not (q.startswith("std::cmp::") or "PartialEq" in q or "cmp::impls" in q or "option::Option" in q or "str::traits" in q or "string::String" in q or "ironcalc_base::types" in q)]
+        n += 1
+        f, l = b.loc(loose[0][0]) if loose else (b.file, b.line)
+        ck.ob(rule, "%s|exact-equality-only" % name, not loose and (bool(cmps) or name == "get_style_index"),
+              "Styles::%s decides that a value is already interned with %s: values that differ (e.g. only in letter case) are merged "
+              "into one table entry and one of them reads back as the other" % (name, loose[0][1] if loose else "no comparison at all"), f, l,
+              sample={"lookup": name, "comparisons": sorted({q for _, q, _ in cmps})})
